@@ -13,12 +13,12 @@ class TFile:
 
 class GT:
     """a torrent with its ground-truth content"""
-    def __init__(self, name, piece_length, files, multi, extra_root=()):
+    def __init__(self, name, piece_length, files, multi, extra_root=(), extra_info=()):
         self.name, self.L, self.files, self.multi = name, piece_length, files, multi
         data = b"".join(f.content for f in files)
         self.total = len(data)
         self.hashes = [hashlib.sha1(data[i:i + self.L]).digest() for i in range(0, len(data), self.L)] if self.L > 0 else []
-        kw = dict(name=name, piece_length=self.L, hashes=b"".join(self.hashes), extra_root=extra_root)
+        kw = dict(name=name, piece_length=self.L, hashes=b"".join(self.hashes), extra_root=extra_root, extra_info=extra_info)
         if multi:
             kw["files"] = [(f.length, f.path) for f in files]
         else:
@@ -765,6 +765,92 @@ def gen_world_many_segments(rng, n):
     w.add_file((b"bystander", b"note.txt"), b"do not touch")
     w.has_truth = False
     w.tag = "many segments in one piece"
+    return w
+
+
+def gen_world_cross_seed(rng):
+    """C04 / C17: the same content published twice (a cross-seed: identical name, files and pieces, another value of the
+    uninterpreted info key `source`), hence two info-hashes and two export subtrees with files of the same relative path
+    and length. Export states: both complete (an idle run must write nothing), one complete, none; the payload may
+    or may not still be in the scan directory."""
+    w = World()
+    multi = rng.chance(1, 2)
+    L = rng.choice([2, 3, 4, 8])
+    if multi:
+        files = [TFile(ln, [b"f%d" % i], gen_content(rng, ln)) for i, ln in enumerate([rng.range(1, 9) for _ in range(rng.range(1, 3))])]
+    else:
+        ln = rng.range(1, 12)
+        files = [TFile(ln, [b"shared.bin"], gen_content(rng, ln))]
+    name = b"shared.bin" if not multi else b"album"
+    a = GT(name, L, files, multi, extra_info=[(b"source", b"A")])
+    b = GT(name, L, files, multi, extra_info=[(b"source", b"B")])
+    w.gts = [a, b]; w.docs = [a.doc, b.doc]
+    if rng.chance(1, 2):
+        w.docs.reverse()
+    w.dirs.add(w.export)
+    w.scan = [(b"scan0",)]
+    w.add_file((b"scan0", b".keep"), b"k")
+    state = rng.below(4)          # 0: both complete, 1: A only, 2: B only, 3: none
+    for g, have in ((a, state in (0, 1)), (b, state in (0, 2))):
+        if have:
+            for f in files:
+                w.add_file(tuple(g.target(w.export, f)), f.content)
+    if state == 3 or rng.chance(1, 2):
+        for f in files:
+            w.add_file((b"scan0", name) + (tuple(f.path) if multi else ()), f.content)
+    w.add_file((b"bystander", b"note.txt"), b"do not touch")
+    w.threads = rng.choice([1, 1, 2])
+    w.tag = "cross-seed state %d" % state
+    return w
+
+
+def gen_world_shrinking_candidate(rng):
+    """C17 / C02: a candidate that SHRINKS during the run. Torrent A's export image is a stale, longer file whose length
+    equals the declared length of torrent B's file; with the export directory among the scan directories it is a candidate for B; writing A's first piece truncates it, and B's later
+    pieces read it short. B's own data sits in a scan directory and must still be recovered."""
+    w = World()
+    la = rng.range(4, 8); lb = la + rng.range(2, 6)
+    fa = TFile(la, [b"f.bin"], gen_content(rng, la)); fb = TFile(lb, [b"f.bin"], gen_content(rng, lb))
+    a = GT(b"f.bin", rng.choice([1, 2]), [fa], False, extra_root=[(b"comment", b"A")])        # many pieces: scheduled first
+    b = GT(b"f.bin", max(2, lb // 2), [fb], False, extra_root=[(b"comment", b"B")])
+    w.gts = [a, b]; w.docs = [a.doc, b.doc]
+    w.dirs.add(w.export)
+    w.scan = [(b"scan0",)]
+    w.add_file((b"scan0", b"a_payload.dat"), fa.content)
+    w.add_file((b"scan0", b"b_payload.dat"), fb.content)
+    stale = gen_content(rng, lb)
+    img = tuple(a.target(w.export, fa))
+    # (a hard link to the stale image inside a scan directory would do as well, but then the legitimate rewrite of the
+    #  image changes a file reached through a scan directory: C03 and C12 cannot both hold — the theorems' `NoAlias`)
+    k = rng.below(2)
+    if k == 0:
+        w.add_file(img, stale); w.scan.append(w.export)
+    else:
+        w.add_file(img, stale); w.scan.insert(0, ())
+    w.add_file((b"bystander", b"note.txt"), b"do not touch")
+    w.threads = 1
+    w.tag = "shrinking candidate %d" % k
+    return w
+
+
+def gen_world_big_files(rng):
+    """files of several kilobytes (every other world has files of a few bytes): thresholds such as a 4096-byte read
+    window, a buffer size or a page boundary only matter here. One multi-file torrent whose pieces span files, complete
+    copies in the scan directory, plus a decoy agreeing with the genuine file on its first 4096 bytes."""
+    w = World()
+    n = rng.range(2, 3)
+    files = [TFile(ln, [b"big%d" % i], gen_content(rng, ln)) for i, ln in enumerate([rng.range(4500, 9000) for _ in range(n)])]
+    L = rng.choice([4096, 8192, 16384])
+    g = GT(b"bigt", L, files, True)
+    w.gts = [g]; w.docs = [g.doc]
+    w.dirs.add(w.export)
+    w.scan = [(b"scan0",)]
+    for i, f in enumerate(files):
+        w.add_file((b"scan0", b"src%d" % i), f.content)
+        if rng.chance(1, 2):
+            w.add_file((b"scan0", b"decoy%d" % i), f.content[:4096] + corrupt(rng, f.content[4096:]))
+    w.add_file((b"bystander", b"note.txt"), b"do not touch")
+    w.tag = "big files"
     return w
 
 
